@@ -256,6 +256,8 @@ class Executor:
                     return VSeq(ty.elem, z3.Empty(ty.sort()))
                 terms = [z3.Unit(to_term(i, ty.elem)) for i in items]
                 return VSeq(ty.elem, terms[0] if len(terms) == 1 else z3.Concat(*terms))
+            if isinstance(ty, TTuple) and len(ty.items) == len(v.items):
+                return VTuple([self.freeze(st, i, t) for i, t in zip(v.items, ty.items)])
             return VTuple([self.freeze(st, i) for i in v.items])
         if isinstance(ty, TOpt) and not isinstance(v, VOpt):
             if v is VNone:
@@ -826,14 +828,14 @@ class Executor:
         return self._lift(self.eval(st, s.value), lambda s2, v: [(s2, Outcome(Outcome.NORMAL))])
 
     def do_yield(self, st, v):
-        out = st.env.get("$yield")
+        out = st.env.get("_yielded")
         if out is None:
             raise EngineUnsupported("yield outside generator context")
         self.list_append(st, out, v)
         return [(st, Outcome(Outcome.NORMAL))]
 
     def do_yield_from(self, st, v):
-        out = st.env.get("$yield")
+        out = st.env.get("_yielded")
         if out is None:
             raise EngineUnsupported("yield from outside generator context")
         self.list_extend(st, out, v)
